@@ -9,6 +9,7 @@ import EaselModel.Vec.Mat
 import EaselModel.Vec.GenOrder
 import EaselModel.Vec.CompareReal
 import EaselModel.Vec.GenFloat
+import EaselModel.Vec.GenReal
 /-! # C20 — vector and SIMD numeric kernels compute their definition for every input
 
 Property theorems only (proofs are glue on the lemmas of `Simd/Lemmas.lean`, `Simd/LogExpLemmas.lean`, `Vec/Real.lean`, `Vec/XReal.lean`).
@@ -583,6 +584,19 @@ theorem gen_DLogNorm_spec (v : Array XR) (hv : ∀ x ∈ v.toList, x.isLogP) (hf
   rw [Vec.gen_DLogNorm xr_uniform xr_window v]; exact Vec.logNorm_spec v.toList hv hfin
 end atWinD
 example : (#[1, 2, 3] : Array ℝ).toList.sum ≠ 0 := by norm_num
+
+/-- `esl_vec_{D,F}CDF` as regenerated, over ℝ: output cell `k` is the sum of the first `k+1` inputs — into separate storage and in
+    place (`cdf == p`); `n = 0` is outside the routine's domain (it reads `p[0]`: the model faults, as ASan would) -/
+theorem gen_DCDF_real (p c : Array ℝ) (hc : c.size = p.size) (h : p.size ≠ 0) :
+    (∃ r, esl_vec_DCDF p p.size c = some r ∧ r.size = p.size ∧ ∀ k, k < p.size → r[k]? = some ((p.toList.take (k + 1)).sum)) ∧
+    (∃ r, esl_vec_FCDF p p.size c = some r ∧ r.size = p.size ∧ ∀ k, k < p.size → r[k]? = some ((p.toList.take (k + 1)).sum)) :=
+  ⟨Vec.gen_dcdf_real p c hc h, Vec.gen_dcdf_real p c hc h⟩
+theorem gen_DCDF_inplace_real (p : Array ℝ) (h : p.size ≠ 0) :
+    (∃ r, esl_vec_DCDF_inplace p p.size = some r ∧ r.size = p.size ∧ ∀ k, k < p.size → r[k]? = some ((p.toList.take (k + 1)).sum)) ∧
+    (∃ r, esl_vec_FCDF_inplace p p.size = some r ∧ r.size = p.size ∧ ∀ k, k < p.size → r[k]? = some ((p.toList.take (k + 1)).sum)) :=
+  ⟨Vec.gen_dcdf_inplace_real p h, Vec.gen_dcdf_inplace_real p h⟩
+theorem gen_DCDF_empty (c : Array ℝ) : esl_vec_DCDF (#[] : Array ℝ) 0 c = none := rfl
+example : (#[0.5, 0.5] : Array ℝ).size ≠ 0 := by decide
 
 end generated
 
